@@ -21,6 +21,20 @@ package main
 //   first=cancel : r's cancellation path runs first (r is still queued), then the release.
 // Both outcomes are deterministic; the model has them as the orders "cancel, release, wake(ctx)" / "cancel, wake, release".
 //
+// "arrive-during-release" — a release that runs WHILE a newcomer is between its failed direct check and its place in the
+// queue.  Nothing in the repository is instrumented: DefaultLocker.Lock writes a few debug lines through the logger of the
+// REQUEST's context ("Intent lock", then "Lock acquired" + "Lock directly acquired" or "Lock not acquired, … putting in
+// queue"), and every request of this harness carries its own logger, whose methods are a second yield point: armed with a
+// number k it reports "r stands in its k-th log call" and waits.  The harness then starts the release of holder b in a
+// goroutine and looks at what that goroutine does: it either parks on the locker's mutex (the log call is made under the
+// mutex: the release can only run after r has been queued — state "sync.Mutex.Lock" as for handover) or runs to completion
+// (the log call is made outside the mutex).  Only then r goes on; the release is awaited; r is resumed at its select.
+// On the unchanged code every log call of the arrival path of a request that has to wait is made under the mutex, so the
+// order is "r is queued, then b releases (and grants r if nothing else blocks it)"; on the direct path the last call
+// ("Lock directly acquired") is made after the unlock and the release runs in between, which changes nothing.  Either way
+// the model's sequence is arrive r; release b — ONE resolution, whatever k.  A locker that lets the release in between the
+// failed check and the Append shows as a request that waits although nobody holds anything it wants.
+//
 // Synchronisation never depends on timing (the only sleeps are the back-off of the poll for "parked on the mutex", whose
 // outcome is a state, not a duration).  After an operation the harness waits for (a) every waiting request whose
 // context has been cancelled, then (b) as many further returns as the locker's own queue (read through the
@@ -32,8 +46,10 @@ package main
 //
 // input : {"ops":[{"op":"arrive","r":n,"read":[..],"write":[..],"hold":[{"op":"release","r":b}|{"op":"cancel"}]}
 //                | {"op":"release","r":n} | {"op":"cancel","r":n} | {"op":"race","r":n,"b":m,"skew":k}
-//                | {"op":"handover","r":n,"b":m,"first":"release"|"cancel"} | {"op":"drain"}]}
-// output: {"steps":[{"res":…, "ho":"both-parked"|… (handover only; not compared), "ret":{"<id>":"ok"|"err"}, "sub":[{"rel":id,"ret":{…}}…] (drain only), "waiting":[ids], "q":[[read,write]…], "rl":{acct:"count"}, "wl":[acct…]}], "dead":why?}
+//                | {"op":"handover","r":n,"b":m,"first":"release"|"cancel"}
+//                | {"op":"arrive-during-release","r":n,"read":[..],"write":[..],"b":m,"at":k} | {"op":"drain"}]}
+// output: {"steps":[{"res":…, "ho":"both-parked"|… (handover) | "release-parked"|"release-completed"|"no-such-yield"|"not-a-holder"
+//                    (arrive-during-release; not compared), "log":text of the log call r stood in (not compared), "ret":{"<id>":"ok"|"err"}, "sub":[{"rel":id,"ret":{…}}…] (drain only), "waiting":[ids], "q":[[read,write]…], "rl":{acct:"count"}, "wl":[acct…]}], "dead":why?}
 
 import (
 	"context"
@@ -63,7 +79,8 @@ func init() {
 
 type lockEvent struct {
 	id     int
-	kind   string // "parked" | "returned"
+	kind   string // "parked" (at the select) | "log-parked" (in a log call) | "returned"
+	msg    string // log-parked: the format string of the call
 	unlock command.Unlock
 	err    error
 }
@@ -84,8 +101,42 @@ func (c *hookCtx) Done() <-chan struct{} {
 	return c.Context.Done()
 }
 
+// yieldLogger is the logger of one request.  Inert unless armed: armed with k, the k-th call made through it from then on
+// reports to the harness and waits (once).  WithFields / WithField / WithContext hand back the same logger, so the logger
+// DefaultLocker.Lock derives for the request (and stores in the context it passes on) is this one.
+type yieldLogger struct {
+	id     int
+	events chan<- lockEvent
+	armed  atomic.Int32
+	calls  atomic.Int32
+	resume chan struct{}
+}
+
+func (l *yieldLogger) arm(k int) { l.calls.Store(0); l.armed.Store(int32(k)) }
+func (l *yieldLogger) disarm()   { l.armed.Store(0) }
+func (l *yieldLogger) hit(msg string) {
+	k := l.armed.Load()
+	if k == 0 {
+		return
+	}
+	if l.calls.Add(1) == k && l.armed.CompareAndSwap(k, 0) {
+		l.events <- lockEvent{id: l.id, kind: "log-parked", msg: msg}
+		<-l.resume
+	}
+}
+func (l *yieldLogger) Debugf(f string, args ...any)               { l.hit(f) }
+func (l *yieldLogger) Infof(f string, args ...any)                { l.hit(f) }
+func (l *yieldLogger) Errorf(f string, args ...any)               { l.hit(f) }
+func (l *yieldLogger) Debug(args ...any)                          { l.hit(fmt.Sprint(args...)) }
+func (l *yieldLogger) Info(args ...any)                           { l.hit(fmt.Sprint(args...)) }
+func (l *yieldLogger) Error(args ...any)                          { l.hit(fmt.Sprint(args...)) }
+func (l *yieldLogger) WithFields(map[string]any) logging.Logger   { return l }
+func (l *yieldLogger) WithField(string, any) logging.Logger       { return l }
+func (l *yieldLogger) WithContext(context.Context) logging.Logger { return l }
+
 type lockReq struct {
 	id        int
+	log       *yieldLogger
 	gid       atomic.Int64 // goroutine number of the Lock call (as printed by the runtime)
 	ctx       *hookCtx
 	cancel    context.CancelFunc
@@ -122,8 +173,9 @@ func newLockHarness() *lockHarness {
 func (h *lockHarness) req(id int) *lockReq {
 	r, ok := h.reqs[id]
 	if !ok {
-		inner, cancel := context.WithCancel(h.base)
-		r = &lockReq{id: id, cancel: cancel}
+		lg := &yieldLogger{id: id, events: h.ev, resume: make(chan struct{}, 1)}
+		inner, cancel := context.WithCancel(logging.ContextWithLogger(h.base, lg))
+		r = &lockReq{id: id, cancel: cancel, log: lg}
 		r.ctx = &hookCtx{Context: inner, id: id, events: h.ev, resume: make(chan struct{}, 1)}
 		h.reqs[id] = r
 	}
@@ -160,6 +212,8 @@ func (h *lockHarness) handle(ev lockEvent) {
 	case "parked":
 		// only expected inside arrive(), which consumes it itself
 		h.dead = fmt.Sprintf("request %d reached the select outside its arrival", ev.id)
+	case "log-parked":
+		h.dead = fmt.Sprintf("request %d stands in a log call outside its arrival", ev.id)
 	}
 }
 
@@ -182,6 +236,25 @@ func (h *lockHarness) drainNow() {
 			return
 		}
 	}
+}
+
+// awaitOwn waits for the next thing request id does during its arrival: "log-parked" (it stands in the log call its logger
+// was armed for), "parked" (it stands at the entry of its select) or "returned"; what other requests do meanwhile is recorded.
+func (h *lockHarness) awaitOwn(id int) lockEvent {
+	for h.dead == "" {
+		ev, ok := h.wait()
+		if !ok {
+			break
+		}
+		if ev.id == id && ev.kind != "returned" {
+			return ev
+		}
+		h.handle(ev)
+		if ev.id == id {
+			return ev
+		}
+	}
+	return lockEvent{id: id, kind: "dead"}
 }
 
 // settle lets every goroutine that can leave its select do so, and waits for exactly those.
@@ -321,6 +394,7 @@ func (h *lockHarness) do(op J) J {
 	h.ret = map[string]any{}
 	res := ""
 	ho := ""
+	logMsg := ""
 	sub := []any{}
 	switch op["op"] {
 	case "arrive":
@@ -500,6 +574,82 @@ func (h *lockHarness) do(op J) J {
 		if h.dead == "" {
 			h.settle()
 		}
+	case "arrive-during-release":
+		id, b, at := toInt(op["r"]), toInt(op["b"]), toInt(op["at"])
+		if at <= 0 {
+			at = 2
+		}
+		r := h.req(id)
+		if r.arrived {
+			res = "rejected"
+			break
+		}
+		r.arrived = true
+		acc := command.Accounts{Read: strs(op["read"]), Write: strs(op["write"])}
+		r.log.arm(at)
+		go func() {
+			r.gid.Store(goid())
+			u, err := h.locker.Lock(r.ctx, acc)
+			h.ev <- lockEvent{id: id, kind: "returned", unlock: u, err: err}
+		}()
+		ev := h.awaitOwn(id)
+		var relDone chan struct{}
+		if ev.kind == "log-parked" {
+			// r stands in its at-th log call.  Start b's release and see whether it can run now.
+			logMsg = ev.msg
+			if h.isHolder(b) {
+				hb := h.reqs[b]
+				hb.released = true
+				var relG atomic.Int64
+				relDone = make(chan struct{})
+				go func() {
+					relG.Store(goid())
+					hb.unlock(h.base)
+					close(relDone)
+				}()
+				if h.awaitParked(&relG, func() bool {
+					select {
+					case <-relDone:
+						return true
+					default:
+						return false
+					}
+				}, fmt.Sprintf("the release of %d", b)) {
+					ho = "release-parked"
+				} else {
+					ho = "release-completed"
+				}
+			} else {
+				ho = "not-a-holder"
+			}
+			r.log.resume <- struct{}{}
+			if h.dead == "" {
+				ev = h.awaitOwn(id)
+			}
+		} else if ev.kind != "dead" {
+			// r made fewer log calls than that before it reached its select (or returned): the release happens here
+			r.log.disarm()
+			ho = "no-such-yield"
+			if !h.releaseNow(b) {
+				ho = "not-a-holder"
+			}
+		}
+		if relDone != nil && h.dead == "" {
+			select {
+			case <-relDone:
+			case <-time.After(lockWatchdog):
+				h.dead = "watchdog: an unlock function did not return"
+			}
+		}
+		if ev.kind == "parked" {
+			res = "queued"
+			r.ctx.resume <- struct{}{}
+		} else {
+			res = "acquired"
+		}
+		if h.dead == "" {
+			h.settle()
+		}
 	case "drain":
 		res = "drain"
 		all := map[string]any{}
@@ -538,6 +688,9 @@ func (h *lockHarness) do(op J) J {
 	st := J{"res": res, "ret": h.ret, "sub": sub, "waiting": append([]int{}, h.waiting()...), "q": q, "rl": rl, "wl": v.Write}
 	if ho != "" {
 		st["ho"] = ho
+	}
+	if logMsg != "" {
+		st["log"] = logMsg
 	}
 	return st
 }
@@ -739,9 +892,35 @@ func genLock(r *rng, n int, tier string, emit func(J)) {
 					ops = append(ops, op)
 					continue
 				}
+				// a release that runs while the newcomer is inside Lock, between two of its steps (arrive-during-release): mostly
+				// for a newcomer that has to wait behind the holder that releases (the release has to grant it), at the log
+				// call made after the failed check (the 2nd); sometimes at the first call or at one the path may not have;
+				// sometimes for a newcomer that is served at once
+				duringRelease := func(b *gReq, at int) {
+					ops = append(ops, J{"op": "arrive-during-release", "r": q.id, "read": q.read, "write": q.write, "b": b.id, "at": at})
+					if sim.compatible(q) {
+						sim.holders = append(sim.holders, q)
+					} else {
+						sim.waitq = append(sim.waitq, q)
+					}
+					sim.holders = sim.drop(sim.holders, b.id)
+					sim.recheck()
+				}
 				if sim.compatible(q) {
+					if len(sim.holders) > 0 && r.p(10) {
+						duringRelease(sim.holders[r.n(len(sim.holders))], 1+r.n(3))
+						continue
+					}
 					sim.holders = append(sim.holders, q)
 					ops = append(ops, op)
+					continue
+				}
+				if bs := blockersOf(q); r.p(35) {
+					at := 2
+					if r.p(25) {
+						at = 1 + r.n(3)
+					}
+					duringRelease(bs[r.n(len(bs))], at)
 					continue
 				}
 				// q will wait; sometimes let a release and q's cancellation happen while q stands at its select
